@@ -365,9 +365,18 @@ class TieCheck:
         ok, lg = coq_build(self.area, clean=(tier == "thorough" and os.environ.get("VERIF_NO_CLEAN") != "1"))
         if not ok:
             problems.append(("coq-build", lg[-3000:]))
-        ob = props_obligations(self.area, self.props)
-        if not ob["ok"]:
-            problems.append(("proof-obligation", "coqc %s failed:\n%s" % (self.props, ob["log"])))
+        plist = self.props if isinstance(self.props, (list, tuple)) else [self.props]
+        ob = dict(theorems=[], discharged=[], axioms={}, ok=True, cmd="", log="")
+        for pf in plist:
+            o1 = props_obligations(self.area, pf)
+            ob["theorems"] += o1["theorems"]
+            ob["discharged"] += o1["discharged"]
+            ob["axioms"].update(o1["axioms"])
+            ob["cmd"] = (ob["cmd"] + " ; " if ob["cmd"] else "") + o1["cmd"]
+            if not o1["ok"]:
+                ob["ok"] = False
+                ob["log"] += o1["log"]
+                problems.append(("proof-obligation", "coqc %s failed:\n%s" % (pf, o1["log"])))
         axioms = sorted({a for l in ob["axioms"].values() for a in l})
         bad_ax = [a for a in axioms if a.split(".")[-1] not in ALLOWED_AXIOMS and a not in ALLOWED_AXIOMS]
         if bad_ax:
@@ -377,12 +386,11 @@ class TieCheck:
             problems.append(("hygiene", "\n".join(hy)))
         checker = ["make -C coq/%s (full .vo)" % self.area, ob["cmd"]]
         if tier == "thorough" and os.environ.get("VERIF_NO_COQCHK") != "1" and not problems:
-            vo = self.props[:-2] + ".vo"
             lib = None
             for i, t in enumerate(qflags(self.area)):
                 if t == os.path.join(COQ, self.area):
                     lib = qflags(self.area)[i + 1]
-            cmd = ["coqchk", "-silent", "-o"] + qflags(self.area) + ["%s.%s" % (lib, self.props[:-2])]
+            cmd = ["coqchk", "-silent", "-o"] + qflags(self.area) + ["%s.%s" % (lib, pf[:-2]) for pf in plist]
             with Lock("coq." + self.area):
                 rc, o = sh(["timeout", "3000"] + cmd, cwd=os.path.join(COQ, self.area), timeout=3100)
             checker.append(" ".join(cmd))
